@@ -249,7 +249,7 @@ func (t *TCP) SerializeTo(b gopacket.SerializeBuffer, opts gopacket.SerializeOpt
 }
 
 func (t *TCP) ComputeChecksum() (uint16, error) {
-	csum, err := t.computeChecksum(append(t.Contents, t.Payload...), IPProtocolTCP)
+	csum, err := t.computeChecksum(headerAndPayload(t.Contents, t.Payload), IPProtocolTCP)
 	if err != nil {
 		return 0, err
 	}
@@ -634,7 +634,7 @@ func (t *TCP) SetInternalPortsForTesting() {
 }
 
 func (t *TCP) VerifyChecksum() (error, gopacket.ChecksumVerificationResult) {
-	bytes := append(t.Contents, t.Payload...)
+	bytes := headerAndPayload(t.Contents, t.Payload)
 
 	existing := t.Checksum
 	verification, err := t.computeChecksum(bytes, IPProtocolTCP)
